@@ -65,13 +65,15 @@ def run(ctx):
     D, Tt = w.get(T, "D"), w.get(T, "T")
     kinds = {"element": E("Fe"), "isotope": w.isotope("Fe", 56), "D": D, "T": Tt, "H[1]": w.isotope("H", 1), "ion": w.ion(E("Fe"), 3), "negative ion": w.ion(E("O"), -2),
              "singly charged ion": w.ion(E("Na"), 1), "ion of an isotope": w.ion(w.isotope("Fe", 56), 2), "ion of D": w.ion(D, 1), "ion of T": w.ion(Tt, -1),
-             "ion of H[1]": w.ion(w.isotope("H", 1), 1)}
+             "ion of H[1]": w.ion(w.isotope("H", 1), 1),
+             # mass numbers 2 and 3 outside hydrogen (only H[2] and H[3] have names of their own)
+             "He[3]": w.isotope("He", 3), "ion of He[3]": w.ion(w.isotope("He", 3), 1), "Li[3]": w.isotope("Li", 3), "He[2]": w.isotope("He", 2)}
     for label, atom in kinds.items():
         for cnt, cl in ((sp.Integer(1), "count 1"), (sp.Integer(3), "count 3"), (sp.Rational(5, 2), "count 2.5")):
             f = I.call(fm, [[(cnt, atom), (sp.Integer(2), E("Cl"))]], {})
             roundtrip("R1", f"{label}, {cl}: printed tag sequence parses back to the same atom", f)
     public_entry_points(ctx, "RW", [("formula", "formulas.formula")])
-    ctx.floor("R1", 36)
+    ctx.floor("R1", 48)
 
     # ---- R2 count formatting ----------------------------------------------------------------------------
     sc = I.global_name("formulas", "_str_count") if ctx.src.has_func("formulas._str_count") else None
